@@ -4,10 +4,13 @@
    algorithm registry.  No proofs here.
 
    The model follows the REPAIRED code (see findings.d/C20.json): quoted-string aware
-   parameter split, "auth" selected from a qop list, no empty "algorithm=" parameter; the
+   parameter split, "auth" selected from a qop list, no empty "algorithm=" parameter,
+   quoted-pairs resolved in challenge values and written again on output (escapeQuoted /
+   unquoteParam, Model/AuthParam.v), a body that cannot be replayed is an error; the
    pre-fix functions are kept as *_pinned. *)
 From ReqV Require Export Lib.Bytes.
-From ReqV Require Export Gen.DigestTables.  (* hash_funcs, challenge_keys: regenerated from digest.go *)
+From ReqV Require Export Model.AuthParam.
+From ReqV Require Export Gen.DigestTables.  (* hash_funcs, challenge_keys, authorize_fields: regenerated from digest.go *)
 
 (* ---------- hash functions ---------- *)
 
@@ -30,12 +33,6 @@ Definition ctor_hash (id : bytes) : hashfn :=
   else if bytes_eqb id (bs "sha512.New512_256") then HSha512_256
   else HOther.
 
-Fixpoint assoc_bytes {A} (k : bytes) (l : list (bytes * A)) : option A :=
-  match l with
-  | [] => None
-  | (k', v) :: r => if bytes_eqb k k' then Some v else assoc_bytes k r
-  end.
-
 (* hashFuncs[alg] *)
 Definition lookup_alg (alg : bytes) : option hashfn :=
   match assoc_bytes alg hash_funcs with
@@ -45,10 +42,6 @@ Definition lookup_alg (alg : bytes) : option hashfn :=
 
 (* ---------- small string helpers ---------- *)
 
-Definition dquote : byte := """"%byte.
-Definition bslash : byte := "\"%byte.
-Definition comma : byte := ","%byte.
-Definition equals : byte := "="%byte.
 Definition colon_d : byte := ":"%byte.
 
 (* const ws = " \n\r\t" *)
@@ -92,18 +85,19 @@ Record challenge := mkChal {
 
 Definition empty_chal : challenge := mkChal [] [] [] [] [] [] [] [].
 
-Inductive derr := EBadChallenge | ECharset | EAlgNotSupported | EQopNotSupported.
+Inductive derr := EBadChallenge | ECharset | EAlgNotSupported | EQopNotSupported | EUnreplayable.
 
 Definition derr_eqb (a b : derr) : bool :=
   match a, b with
   | EBadChallenge, EBadChallenge | ECharset, ECharset
-  | EAlgNotSupported, EAlgNotSupported | EQopNotSupported, EQopNotSupported => true
+  | EAlgNotSupported, EAlgNotSupported | EQopNotSupported, EQopNotSupported
+  | EUnreplayable, EUnreplayable => true
   | _, _ => false
   end.
 
-(* the switch in parseChallenge *)
-Definition set_param (c : challenge) (k raw : bytes) : challenge + derr :=
-  let v := trim_quotes raw in
+(* the switch in parseChallenge; [unq] = unquoteParam (pinned code: strings.Trim with the double quote) *)
+Definition set_param_with (unq : bytes -> bytes) (c : challenge) (k raw : bytes) : challenge + derr :=
+  let v := unq raw in
   let '(mkChal realm domain nonce opaque stale alg qop uh) := c in
   if bytes_eqb k (bs "realm") then inl (mkChal v domain nonce opaque stale alg qop uh)
   else if bytes_eqb k (bs "domain") then inl (mkChal realm v nonce opaque stale alg qop uh)
@@ -116,6 +110,8 @@ Definition set_param (c : challenge) (k raw : bytes) : challenge + derr :=
     if bytes_eqb (to_upper v) (bs "UTF-8") then inl c else inr ECharset
   else if bytes_eqb k (bs "userhash") then inl (mkChal realm domain nonce opaque stale alg qop v)
   else inr EBadChallenge.
+Definition set_param := set_param_with unquote_param.
+Definition set_param_pinned := set_param_with trim_quotes.
 
 (* one loop iteration: TrimSpace, SplitN "=", switch *)
 Definition parse_param (c : challenge) (p : bytes) : challenge + derr :=
@@ -180,24 +176,6 @@ Fixpoint hex_fixed (digits : nat) (n : N) : bytes :=
 (* fmt.Sprintf("%08x", nc) for 0 <= nc < 2^32 *)
 Definition hex8 (n : N) : bytes := hex_fixed 8 n.
 
-(* value of an auth-param as emitted: quoted-string (verbatim between quotes) or bare token *)
-Inductive fval := Quoted (v : bytes) | Bare (v : bytes).
-Definition field := (bytes * fval)%type.
-
-Definition fval_eqb (a b : fval) : bool :=
-  match a, b with
-  | Quoted x, Quoted y | Bare x, Bare y => bytes_eqb x y
-  | _, _ => false
-  end.
-
-Definition render_field (f : field) : bytes :=
-  match snd f with
-  | Quoted v => fst f ++ equals :: dquote :: v ++ [dquote]
-  | Bare v => fst f ++ equals :: v
-  end.
-Definition render_fields (fs : list field) : bytes :=
-  bs "Digest " ++ join_with (bs ", ") (map render_field fs).
-
 Definition lookup_field (k : bytes) (fs : list field) : option fval := assoc_bytes k fs.
 
 Definition sep3 (a b c : bytes) : bytes := a ++ colon_d :: b ++ colon_d :: c.
@@ -219,12 +197,12 @@ Section WithHash.
              (alg : option bytes) (opaque qop nc cnonce : bytes) : list field :=
     (if userhash then [(bs "userhash", Bare (bs "true"))] else []) ++
     [(bs "username", Quoted username); (bs "realm", Quoted realm); (bs "nonce", Quoted nonce);
-     (bs "uri", Quoted uri); (bs "response", Quoted response)] ++
+     (bs "uri", Quoted uri); (bs "response", QuotedRaw response)] ++
     (match alg with None => [] | Some a => [(bs "algorithm", Bare a)] end) ++
     (match opaque with [] => [] | _ => [(bs "opaque", Quoted opaque)] end) ++
     (match qop with
      | [] => []
-     | _ => [(bs "qop", Bare qop); (bs "nc", Bare nc); (bs "cnonce", Quoted cnonce)]
+     | _ => [(bs "qop", Bare qop); (bs "nc", Bare nc); (bs "cnonce", QuotedRaw cnonce)]
      end).
 
   (* newCredentials + authorize (+ resp, ha1, ha2, kd).  [cnonce] is the 32 hex digits drawn
@@ -297,9 +275,12 @@ Section WithHash.
     r_chal : bytes;          (* first WWW-Authenticate value, [] if none *)
     r_body : bytes }.
 
-  (* a request as the origin sees it (projection) *)
+  (* a request as the origin sees it (projection).  Content-Type and body of a multipart
+     request are canonicalised by the harness: the boundary named in the request's OWN
+     Content-Type is replaced by a fixed word in both (the boundary is drawn afresh for the
+     re-send; what must not happen is a Content-Type naming another boundary than the body). *)
   Record wire_request := mkWire {
-    w_method : bytes; w_uri : bytes; w_auth : option bytes; w_body : bytes }.
+    w_method : bytes; w_uri : bytes; w_auth : option bytes; w_ctype : bytes; w_body : bytes }.
 
   Inductive mw_result :=
   | Untouched                          (* middleware returns nil, resp unchanged *)
@@ -308,14 +289,25 @@ Section WithHash.
 
   (* [replayable]: Request.GetBody re-obtains the same bytes (SetBodyBytes/String, form data,
      marshalled bodies, GetBody functions, multipart from bytes).  A body given as a plain
-     io.Reader is not: GetBody hands back the reader the first attempt has drained, so the
-     re-sent request carries nothing (known finding, findings.d/C20.json). *)
+     io.Reader is not (Request.unReplayableBody: the first attempt has drained it): the
+     repaired code returns an error after the header was computed and sends nothing (the
+     pinned code sent the request again with an empty body, digest_middleware_pinned). *)
   Definition digest_middleware (replayable : bool) (first : wire_request) (rsp : first_response)
              (user pass cnonce : bytes) : mw_result :=
     if r_err rsp || negb (N.eqb (r_status rsp) 401) then Untouched
     else match create_digest_auth (r_chal rsp) (w_uri first) (w_method first) user pass cnonce with
          | inr e => MwErr e
-         | inl auth => Resent (mkWire (w_method first) (w_uri first) (Some auth)
+         | inl auth => if replayable
+                       then Resent (mkWire (w_method first) (w_uri first) (Some auth) (w_ctype first) (w_body first))
+                       else MwErr EUnreplayable
+         end.
+
+  Definition digest_middleware_pinned (replayable : bool) (first : wire_request) (rsp : first_response)
+             (user pass cnonce : bytes) : mw_result :=
+    if r_err rsp || negb (N.eqb (r_status rsp) 401) then Untouched
+    else match create_digest_auth (r_chal rsp) (w_uri first) (w_method first) user pass cnonce with
+         | inr e => MwErr e
+         | inl auth => Resent (mkWire (w_method first) (w_uri first) (Some auth) (w_ctype first)
                                       (if replayable then w_body first else []))
          end.
 
@@ -390,6 +382,41 @@ Section WithHash.
     match rfc_registry (c_algorithm c) with
     | Some _ => bytes_eqb (c_qop c) [] || qop_offers_auth (c_qop c)
     | None => false
+    end.
+
+  (* ---------- an RFC 7616 verifier (server side), from the RFC text ---------- *)
+
+  (* the parameters of the Authorization header field, section 3.4 *)
+  Definition rfc_auth_params : list bytes :=
+    [bs "username"; bs "userhash"; bs "realm"; bs "nonce"; bs "uri"; bs "response"; bs "algorithm";
+     bs "opaque"; bs "qop"; bs "nc"; bs "cnonce"].
+
+  Definition opt_fval_eqb (a b : option fval) : bool :=
+    match a, b with
+    | Some x, Some y => fval_eqb x y
+    | None, None => true
+    | _, _ => false
+    end.
+
+  (* The server holds the challenge [c] it sent and (user, pass); it parses the header by
+     RFC 7235 (Model/AuthParam.v parse_credentials: quoted-pairs resolved, names
+     case-insensitive, duplicates rejected), takes the client nonce from it ([hint] stands in
+     when the header carries none: qop absent) and accepts iff every parameter of section 3.4
+     is present or absent as prescribed with exactly the prescribed value - quoted where the
+     RFC says quoted-string, a token where it says token - and nothing else was sent.  This
+     is stricter than a conformant server needs to be. *)
+  Definition rfc7616_accepts (c : challenge) (uri method user pass hint hdr : bytes) : bool :=
+    match parse_credentials hdr with
+    | None => false
+    | Some (scheme, ps) =>
+        let cnonce := match assoc_bytes (bs "cnonce") ps with
+                      | Some (Quoted x) => x
+                      | _ => hint
+                      end in
+        bytes_eqb (to_lower scheme) (bs "digest") &&
+        forallb (fun k => opt_fval_eqb (assoc_bytes k ps)
+                                       (rfc7616_field c uri method user pass cnonce k)) rfc_auth_params &&
+        forallb (fun f => existsb (bytes_eqb (fst f)) rfc_auth_params) ps
     end.
 End WithHash.
 
